@@ -58,6 +58,13 @@ func scenarioCorpus() []scenario {
 			k.W.Write("d2/x", []byte("x\n"))
 			k.W.Write("d2/y", []byte("y\n"))
 		}, fixed("add", "d2")},
+		{"add-dir-large-first-file", func(k *Walker) {
+			k.Init()
+			commitBase(k)
+			k.W.EditRand("d3/a-large.bin", "c16-large", 2<<20)
+			k.W.Write("d3/b.txt", []byte("b\n"))
+			k.W.Write("d3/c.txt", []byte("c\n"))
+		}, fixed("add", "d3")},
 		{"add-modified", func(k *Walker) { k.Init(); commitBase(k); k.W.Write("a.txt", []byte("changed\n")) }, fixed("add", "a.txt")},
 		{"add-deleted", func(k *Walker) { k.Init(); commitBase(k); k.W.Edit("rm", "a.txt", nil) }, fixed("add", "a.txt")},
 		{"add-dot", func(k *Walker) {
@@ -172,6 +179,49 @@ func scenarioCorpus() []scenario {
 		}},
 	}
 }
+
+// readOnlyScenarios (C16 only): a read that fails must end in a non-zero exit or in exactly the fault-free
+// output; a report computed from a file that could not be read is "success after a failure it depends on".
+func readOnlyScenarios() []scenario {
+	dirty := func(k *Walker) {
+		k.Init()
+		twoCommits(k)
+		k.W.Write(".goitignore", []byte("*.log\n"))
+		k.W.Write("a.txt", []byte("dirty\n"))
+		k.W.Write("untracked.txt", []byte("u\n"))
+		k.W.Write("x.log", []byte("l\n"))
+		k.W.Write("staged.txt", []byte("s\n"))
+		k.W.Edit("rm", "dir.c", nil)
+		k.W.Goit("add", "staged.txt")
+		k.W.Goit("branch", "side")
+	}
+	headID := func(k *Walker) string { return k.W.State().Repo().HeadCommit() }
+	return []scenario{
+		{"ro-status", dirty, fixed("status")},
+		{"ro-status-fresh", func(k *Walker) { k.Init(); k.W.Write("a.txt", []byte("a\n")); k.W.Goit("add", "a.txt") }, fixed("status")},
+		{"ro-log", dirty, fixed("log")},
+		{"ro-log-n", dirty, fixed("log", "-n", "1")},
+		{"ro-reflog", dirty, fixed("reflog")},
+		{"ro-ls-files", dirty, fixed("ls-files")},
+		{"ro-ls-files-s", dirty, fixed("ls-files", "-s")},
+		{"ro-branch-list", dirty, fixed("branch", "--list")},
+		{"ro-rev-parse", dirty, fixed("rev-parse", "HEAD")},
+		{"ro-rev-parse-branch", dirty, fixed("rev-parse", "side")},
+		{"ro-cat-file-commit", dirty, func(k *Walker) []string { return []string{"cat-file", "-p", headID(k)} }},
+		{"ro-cat-file-type", dirty, func(k *Walker) []string { return []string{"cat-file", "-t", headID(k)} }},
+		{"ro-cat-file-tree", dirty, func(k *Walker) []string {
+			r := k.W.State().Repo()
+			if cm, err := r.Commit(r.HeadCommit()); err == nil {
+				return []string{"cat-file", "-p", cm.Tree}
+			}
+			return []string{"cat-file", "-p", headID(k)}
+		}},
+		{"ro-hash-object", dirty, fixed("hash-object", "a.txt", "untracked.txt")},
+		{"write-tree", dirty, fixed("write-tree")},
+	}
+}
+
+var readOnlyActions = []string{"status", "log", "reflog", "ls-files", "rev-parse", "cat-file", "hash-object", "write-tree", "branch-list"}
 
 var modifyingActions = []string{"add", "add", "add-all", "rm", "commit", "commit-all", "branch-create", "branch-rename", "branch-delete", "switch", "switch-c", "reset", "restore", "restore-staged", "update-ref", "config"}
 
@@ -409,6 +459,19 @@ func runFaults(c *core.Ctx, w *core.World, name string, argv []string, randomHis
 					fail(fc, "C15.readonly-loads", "readonly-fails", trig+"|"+r.argv[0], "%s: afterwards `goit %s` exits %d (it works before and after the complete command): %s", where, strings.Join(r.argv, " "), res.Exit, clipS(firstLine(string(res.Stdout)+string(res.Stderr)), 160))
 				}
 			}
+			// (4) "still usable": the interrupted command issued again must not crash, and if it reports success the
+			// repository is connected (a leftover lock or temporary file must not turn a later store into a no-op)
+			c.Oracle("C15.usable-again")
+			again := w.SB.Run(c.Goit, argv, sandbox.RunOpts{})
+			c.Eval(1)
+			if cr, how := again.Crashed(); cr {
+				fail(fc, "C15.usable-again", "rerun-crashes", trig, "%s: the same command issued again crashes (%s): %s", where, how, clipS(firstLine(string(again.Stderr)+string(again.Stdout)), 160))
+			} else if again.Exit == 0 {
+				ar := w.SB.Snapshot().Repo()
+				for _, p := range ar.Fsck(false) {
+					fail(fc, "C15.usable-again", "rerun-"+p.Oracle, trig, "%s: the same command issued again exits 0 and leaves: %s", where, p.Msg)
+				}
+			}
 		}
 		return
 	}
@@ -584,6 +647,7 @@ func runFaultProp(c *core.Ctx) {
 	nRand := c.Pick(200, 2000)
 	if c.Prop == "C16" {
 		nRand = c.Pick(100, 1200)
+		corpus = append(corpus, readOnlyScenarios()...)
 	}
 	total := len(corpus) + nRand
 	c.RunHistories(total, func() []core.Monitor { return nil }, func(w *core.World) {
@@ -609,13 +673,16 @@ func runFaultProp(c *core.Ctx) {
 		// pick the command by letting the walker emit it, then undo it
 		pre := w.State()
 		act := modifyingActions[w.Rng.IntN(len(modifyingActions))]
+		if c.Prop == "C16" && w.Hist%4 == 3 {
+			act = readOnlyActions[w.Rng.IntN(len(readOnlyActions))]
+		}
 		nBefore := len(w.Steps)
 		for tries := 0; tries < 4 && len(w.Steps) == nBefore; tries++ {
 			k.Do(act)
 		}
 		var argv []string
 		for _, st := range w.Steps[nBefore:] {
-			if st.Kind == "goit" && st.Cmd() != "reflog" {
+			if st.Kind == "goit" && (st.Cmd() != "reflog" || act == "reflog") {
 				argv = st.Argv
 				pre = st.Pre
 			}
